@@ -63,7 +63,7 @@ theorem c12_refines {env : MEnv} {orig : List Step} (hy : Hyps env orig) (sroot 
     (ignore : Bool) (h : Heap) (target : Val) :
     Refines h target ignore (orig.getLast?.map (·.2)) (delete env sroot sref ignore h target orig)
       (refDelete env h (if sroot then sref else target) orig ignore) := by
-  obtain ⟨hwf, hc, hs⟩ := covered_parts hy
+  obtain ⟨hwf, hc, hs⟩ := C12.covered_parts hy
   exact delete_spec hwf hc sroot sref ignore h target orig hs
 
 /-- **Equals Python's `del`**: when the addressed key / index / attribute exists and can be
@@ -86,7 +86,7 @@ theorem c12_frame {env : MEnv} {orig : List Step} (hy : Hyps env orig) (sroot : 
     ∃ d, matchesOf env h orig.dropLast 0 (if sroot then sref else target) = .ok [d] ∧
       (delete env sroot sref ignore h target orig).1.heap.length = h.length ∧
       ∀ b, d ≠ .ref b → (delete env sroot sref ignore h target orig).1.heap[b]? = h[b]? := by
-  obtain ⟨hwf, hc, hs⟩ := covered_parts hy
+  obtain ⟨hwf, hc, hs⟩ := C12.covered_parts hy
   have hheap := (c12_eq_python hy sroot sref ignore h target h' hid href).2
   rw [hheap]
   have hpns : hasStar orig.dropLast = false :=
@@ -224,7 +224,7 @@ theorem c12_model_checks {env : MEnv} {orig : List Step} (hy : Hyps env orig) (s
     (sref : Val) (ignore : Bool) (h : Heap) (target : Val) :
     checkC12 env h target (if sroot then sref else target) orig ignore
       (C12.observe env (delete env sroot sref ignore h target orig)) = true := by
-  obtain ⟨hwf, _, _⟩ := covered_parts hy
+  obtain ⟨hwf, _, _⟩ := C12.covered_parts hy
   have hr := c12_refines hy sroot sref ignore h target
   unfold checkC12
   simp only [C12.observe, C11.observe]
